@@ -49,6 +49,11 @@ var ErrInjected = errors.New("simstore: injected store failure")
 // CrashSignal is the panic value used to unwind a simulated process crash.
 type CrashSignal struct{}
 
+// AbandonSignal is the panic value of an operation abandoned in mid-flight: the
+// goroutine executing it unwinds (a panic the caller recovers from, runtime.Goexit),
+// the process and the handle live on.
+type AbandonSignal struct{}
+
 type Event struct {
 	Kind   Kind
 	Update bool
@@ -65,12 +70,15 @@ type Ctl struct {
 	CrashAt    int  // crash before the CrashAt-th faultable call of the current op (0 = none)
 	CrashAfter bool // crash right after that call returned instead of before it
 	CrashKill  bool // crash = SIGKILL of this process (worker mode) instead of a panic
+	PanicAt    int  // unwind the calling goroutine at the PanicAt-th faultable call of the current op (0 = none)
 
 	// Outcome of the plan.
 	FaultFired bool
 	FaultKind  Kind
 	CrashFired bool
 	CrashKind  Kind
+	PanicFired bool
+	PanicKind  Kind
 	Crashed    bool // sticky until ResetCrash
 
 	// Per-operation counters (reset by BeginOp).
@@ -93,8 +101,8 @@ type Ctl struct {
 	TotalCalls  int
 	// TotalWriteCommits counts committed write transactions over the whole run
 	TotalWriteCommits int
-	Hash        uint64 // running hash of (kind, update, key) of every call
-	FiredByKind [NKinds]int
+	Hash              uint64 // running hash of (kind, update, key) of every call
+	FiredByKind       [NKinds]int
 
 	Trace   bool
 	Events  []Event
@@ -109,12 +117,12 @@ func (c *Ctl) BeginOp() {
 	c.GetsUnderCursor, c.ReverseCursors, c.ItemsAfterStop = 0, 0, 0
 	c.StopRequested = false
 	c.ByKind = [NKinds]int{}
-	c.FaultFired, c.CrashFired = false, false
+	c.FaultFired, c.CrashFired, c.PanicFired = false, false, false
 	c.WritesBeforeFire = 0
 }
 
 // ClearPlan removes any fault/crash plan.
-func (c *Ctl) ClearPlan() { c.FaultAt, c.CrashAt, c.CrashAfter = 0, 0, false }
+func (c *Ctl) ClearPlan() { c.FaultAt, c.CrashAt, c.CrashAfter, c.PanicAt = 0, 0, false, 0 }
 
 func (c *Ctl) ResetCrash() { c.Crashed = false; c.TxOpen, c.WriteTxOpen, c.CursorsOpen = 0, 0, 0 }
 
@@ -166,6 +174,12 @@ func (c *Ctl) before(k Kind, update bool, key []byte) (bool, error) {
 		c.FCalls++
 		if c.CrashAt == c.FCalls && !c.CrashAfter {
 			c.crashNow(k)
+		}
+		if c.PanicAt == c.FCalls {
+			c.PanicFired, c.PanicKind = true, k
+			c.WritesBeforeFire = c.Writes
+			c.PanicAt = 0
+			panic(AbandonSignal{})
 		}
 		if c.FaultAt == c.FCalls {
 			c.FaultFired, c.FaultKind = true, k
